@@ -227,7 +227,8 @@ C17Clause(st) ==
 (* instance as self; the delegation chain receives what was delegated.                                 *)
 C03VClause(st) ==
   LET E == st.obs.entered IN
-  IF st.obs.slf # "ok" THEN "value_dispatch.self_threaded"
+  IF st.obs.kind \in {"badforward", "internal"} THEN "value_dispatch.no_" \o st.obs.kind
+  ELSE IF st.obs.slf # "ok" THEN "value_dispatch.self_threaded"
   ELSE IF Len(E) > 0 /\ E[1].call # st.call THEN "value_dispatch.arguments_intact"
   ELSE IF \E j \in 2..Len(E) : E[j-1].next.has /\ E[j].call # E[j-1].next.call THEN "value_dispatch.arguments_intact.delegated"
   ELSE LET c == C01Clause(st) IN IF c = "" THEN "" ELSE "value_dispatch." \o c
